@@ -455,6 +455,10 @@ func findingClass(ci *caseInfo) string {
 			return "error-type-differs-between-levels"
 		}
 	}
+	// a custom error type whose response overrides the body: unmapped attributes are not carried
+	if e.Def.T != nil && e.Resp.Body != nil && (e.Resp.Body.Empty || e.Resp.Body.Attr != "") {
+		return "custom-error-body-override-drops-attributes"
+	}
 	// string attributes that travel in headers
 	var hv []string
 	if e.Def.T == nil {
